@@ -259,7 +259,13 @@ func (rg *rpcRig) slotProbe() (string, string) {
 		return "", "" // the path ends with handlers still gated: nothing to probe
 	}
 	// wait until no counter is held (a finished handler returns its slots a moment after the response)
-	if !waitFor(settleDeadline, func() bool { return len(rg.nd.s.VerifInflightSubnet()) == 0 }) {
+	held := func() (n int) {
+		for _, v := range rg.nd.s.VerifInflightSubnet() {
+			n += v
+		}
+		return
+	}
+	if !waitFor(settleDeadline, func() bool { return held() == 0 }) {
 		return "replay:rpc:slot-leak:subnet-counter", fmt.Sprintf("no RPC in flight but inflightSubnet = %v", rg.nd.s.VerifInflightSubnet())
 	}
 	want := rg.g.MaxInflight
@@ -293,7 +299,7 @@ func (rg *rpcRig) slotProbe() (string, string) {
 					return false
 				}
 			}
-			return len(rg.nd.s.VerifInflightSubnet()) == 0
+			return held() == 0
 		}) {
 			return "replay:rpc:slot-leak:probe-answer", fmt.Sprintf("probe RPCs of %s were not answered / counters not returned: %v", p, rg.nd.s.VerifInflightSubnet())
 		}
